@@ -655,7 +655,12 @@ def cache_history(label, nops, script=None):
             else:
                 menu = ["r", "r", "p"]
                 if idle:
-                    menu += ["l", "sl", "sl", "pk", "pk", "pr", "pr", "ri"]
+                    menu += ["l", "sl", "sl"]
+                    if not bare_pending:
+                        # the REAL pick operations only from a state the public operations can produce: after a bare
+                        # swap() (not a public step, not an invalidation point - bare_swap_stale_counterexample) the
+                        # cache is legitimately stale until the next invalidating operation
+                        menu += ["pk", "pk", "pr", "pr", "ri"]
                 if busy:
                     menu += ["u", "a", "a", "a"]
                 menu += ["s"]
@@ -706,8 +711,17 @@ def cache_history(label, nops, script=None):
                 try:
                     P = np.asarray(st.prob, dtype=float)
                     opts = [(t, e) for t in idle for e in idle if P[t, e] > 1e-12]
-                    if not opts:
-                        continue
+                except Exception:  # noqa: BLE001
+                    # the generator's bare lock/unlock operations can lead to an idle block without perfect matching
+                    # (a lock the scheduler never takes: probability-0 pair): `prob` itself raises there.  That is a
+                    # plain read - model-vs-code comparison of the error kind below, not a property failure
+                    P, opts = None, []
+                if P is None:
+                    op = ["r"]
+                elif not opts:
+                    continue
+            if op[0] in ("pk", "pr", "ri"):
+                try:
                     if op[0] == "pk":
                         e = rng.choice(sorted({e for _t, e in opts}))
                         st.pick_traj_ens(e)
